@@ -3,3 +3,5 @@ pub mod project;
 pub mod sim;
 pub mod trace;
 pub mod world;
+pub mod ledger;
+pub mod ledger_run;
